@@ -216,10 +216,12 @@ pub fn run(ws: &[&str]) -> String {
         next_reply(r).map_err(|e| {
             let n = fail_no.get();
             fail_no.set(n + 1);
+            let kinds = [std::io::ErrorKind::TimedOut, std::io::ErrorKind::ConnectionReset, std::io::ErrorKind::UnexpectedEof, std::io::ErrorKind::InvalidData,
+                         std::io::ErrorKind::ConnectionRefused, std::io::ErrorKind::InvalidInput, std::io::ErrorKind::WouldBlock, std::io::ErrorKind::Interrupted];
             match n % 4 {
                 0 => oauth2::HttpClientError::Other(e.0),
                 1 => oauth2::HttpClientError::Http(http::Error::from(http::StatusCode::from_u16(0).unwrap_err())),
-                2 => oauth2::HttpClientError::Io(std::io::Error::new(std::io::ErrorKind::ConnectionReset, e.0)),
+                2 => oauth2::HttpClientError::Io(std::io::Error::new(kinds[(n / 4) % kinds.len()], e.0)),
                 _ => oauth2::HttpClientError::Reqwest(Box::new(e)),
             }
         })
